@@ -637,17 +637,23 @@ class PostgreSQLQueryBuilder(QueryBuilder):
             # '*', constants and field-less functions used to slip through the per-field check
             raise QueryException("Returning can't be used in this query")
 
-        for term in terms:
-            if isinstance(term, Field):
-                self._return_field(term)
-            elif isinstance(term, str):
-                self._return_field_str(term)
-            elif isinstance(term, (Function, ArithmeticExpression)):
-                if term.is_aggregate:
-                    raise QueryException("Aggregate functions are not allowed in returning")
-                self._return_other(term)
-            else:
-                self._return_other(self.wrap_constant(term, self._wrapper_cls))
+        # a rejected call must not leave its earlier terms behind on a builder created with immutable=False
+        saved = (list(self._returns), self._return_star)
+        try:
+            for term in terms:
+                if isinstance(term, Field):
+                    self._return_field(term)
+                elif isinstance(term, str):
+                    self._return_field_str(term)
+                elif isinstance(term, (Function, ArithmeticExpression)):
+                    if term.is_aggregate:
+                        raise QueryException("Aggregate functions are not allowed in returning")
+                    self._return_other(term)
+                else:
+                    self._return_other(self.wrap_constant(term, self._wrapper_cls))
+        except QueryException:
+            self._returns, self._return_star = saved
+            raise
 
     def _validate_returning_term(self, term: Term) -> None:
         # find_ rather than fields_(): fields_() is a set keyed by the rendered text, which drops same-named
